@@ -146,10 +146,12 @@ for _cls in GROUPS + MATHS:
                      ensures=[P(['C01', 'C08', 'C12'], 'ser',
                                 'result == concat(clsattr(self, "begin"), %s, %s, clsattr(self, "end"))' % (_SA, _SC))]))
 REG.add(Contract('data.TexEnv.__str__', case='TexNamedEnv', types={'self': 'UExpr:data.TexNamedEnv'}, result='str',
-                 requires=[A('not-root', 'self.name != "[tex]"')],
                  ensures=[P(['C01', 'C08', 'C14'], 'ser',
+                            'self.name != "[tex]" ==> '
                             'result == concat("\\\\begin{", self.name, "}", %s, %s, "\\\\end{", self.name, "}")'
-                            % (_SA, _SC))]))
+                            % (_SA, _SC)),
+                          # an environment that happens to be called "[tex]" prints like the root (finding D18)
+                          A('root-name-clash', 'self.name == "[tex]" ==> result == %s' % _SC)]))
 
 
 @REG.specfun('clsattr')
@@ -257,8 +259,7 @@ def _append_hook(eng, st, b, pre):
     obj = b['self']
     old = pre.heap[obj.a['ref']]['contents'].z
     new = st.heap[obj.a['ref']]['contents'].z
-    cache = st.ghost.get('$eseq', {})
-    add = cache.get(id(b['exprs']))
+    add = st.ghost.get('$eseq:%d' % id(b['exprs']))
     if add is None:
         add = as_eseq(b['exprs'], st)
     concat_facts(st, old, add.z, new)
@@ -289,9 +290,12 @@ def _nw_of_str(pieces):
             else:
                 parts.append(pystr(p))
         z = Concat(*parts)
-        st.fact(strz(b['result']) == z)
+        guard = BoolVal(True)
+        if obj.a['cls'] == 'data.TexNamedEnv':
+            guard = f['name'].z != pystr('[tex]')
+        st.fact(Implies(guard, strz(b['result']) == z))
         nw_concat(st, z)
-        st.fact(NW(strz(b['result'])) == NW(z))
+        st.fact(Implies(guard, NW(strz(b['result'])) == NW(z)))
     return hook
 
 
